@@ -162,6 +162,23 @@ theorem xor_spec (x y : Table) (lc rc : List KeySpec) (lk rk : List Val)
   · rw [← keysOf_length hlk, ← keysOf_length hrk]
     exact xorIds_perm (keysOf_tuple hlk)
 
+/-- **xor, mode 'r'**: the same statement with the roles exchanged — `x.xor(y, …, mode='r')` is `y`
+restricted to (a permutation of) its rows whose key matches no row of `x` -/
+theorem xor_spec_r (x y : Table) (lc rc : List KeySpec) (lk rk : List Val)
+    (hlen : lc.length = rc.length) (hne : lc ≠ [])
+    (hlk : x.keysOf lc = .ok lk) (hrk : y.keysOf rc = .ok rk) :
+    ∃ ids : List Nat,
+      xor x y (some lc) (some rc) 1 = .ok (y.gatherRows ids) ∧
+      ids.Perm ((List.range y.nrows).filter fun j =>
+        (List.range x.nrows).all fun i => cmp (keyAt lk i) (keyAt rk j) != .eq) := by
+  refine ⟨xorIds 1 lk rk, ?_, ?_⟩
+  · have hne' : lc.isEmpty = false := by cases lc <;> simp_all
+    simp [xor, hlen, hne', hlk, hrk, bind, Except.bind, pure, Except.pure]
+  · rw [← keysOf_length hlk, ← keysOf_length hrk]
+    apply xorIds1_perm
+    intro k hk he
+    exact keysOf_tuple hrk k hk (cmp_eq_symm he)
+
 /-- with no key column `xor` returns `x` itself -/
 theorem xor_nokey (x y : Table) (mode : Nat) : xor x y (some []) (some []) mode = .ok x := by
   simp [xor]
